@@ -479,6 +479,95 @@ def incomparable_task(dummy):
     return st
 
 
+PINT_UNIT_PAYLOADS = ['hszcanary', 'print', 'eval', 'exec', 'open', 'globals', 'lambda', 'self', 'entity', 'foo', 'hszunit', 'zz_q', 'Frobs', u'\u00b5frob',
+                      'kg', 'kW', 'm', u'\u00b0C', '%']
+PINT_FORMS = ['a == 5%s', 'a != 5%s', 'a < 5%s', 'a >= -1.5%s', 'b or a > 1%s', 'a == 5%s and b', 'r->a > 1%s', 'a == [5%s]', 'a == {k:5%s}']
+
+
+def _registry_fingerprint(hs):
+    """The definitions of the process-wide unit registry that hszinc shares with the program (names only; caches are not definitions)."""
+    u = hs.ureg
+    out = {}
+    for attr in ('_units', '_prefixes', '_suffixes', '_dimensions', '_contexts', '_groups', '_systems'):
+        d = getattr(u, attr, None)
+        if d is not None:
+            try:
+                out[attr] = frozenset(str(k) for k in d)
+            except TypeError:
+                pass
+    return out
+
+
+def pint_task(units):
+    """The library's other Quantity mode (hszinc.use_pint): unit positions of a filter under a shared Pint registry.  A unit the registry
+    does not know stays unknown (nothing from the filter text is *defined* anywhere), known units define nothing new once they were
+    used before, and the usual monitors (audit events, canary, setters, global-state diff) stay silent."""
+    import hszinc as hs
+    st = Stats()
+    if not getattr(hs, 'PINT_AVAILABLE', False):
+        return st
+    import pint
+    ensure_hook()
+    hs.use_pint(True)
+    try:
+        g = hs.Grid(version='3.0', columns=[('id', []), ('a', []), ('b', []), ('r', [])])
+        g.append({'id': 'w', 'a': hs.Quantity(5.0, 'kW'), 'b': hs.MARKER})
+        g.append({'id': 'plain', 'a': 5.0})
+        g.append({'id': 'ref', 'r': hs.Ref('w')})
+        for t in ('a', 'a == 5kg', 'a < 5kg', 'b or a > 1kg', 'r->a > 1kg', 'a == [5kg]', 'a == {k:5kg}'):
+            try:
+                g.filter(t)
+            except BaseException:  # noqa
+                pass
+        for unit in units:
+            # does the registry know the unit?  (asking also lets Pint derive prefixed forms of known units now, not inside the measured call)
+            try:
+                hs.ureg.parse_units(hs.pintutil.to_pint(unit))
+                known = True
+            except pint.errors.UndefinedUnitError:
+                known = False
+            except Exception:  # noqa
+                known = None
+            for form in PINT_FORMS:
+                text = form % unit
+                fp0 = _registry_fingerprint(hs)
+                snap0 = snapshot()
+                out, ev, flag, w = run_filter(hs, g, text)
+                d = diff(snap0, snapshot())
+                fp1 = _registry_fingerprint(hs)
+                st.count('executions')
+                case = {'kind': 'pint', 'filter': text, 'unit': unit}
+                sig = {'position': 'unit (Pint mode)', 'unit_known_to_pint': known}
+                st.case(('pint', text), outcome=(out[0], out[1] if out[0] == 'raise' else 'ok', known))
+                if fp0 != fp1:
+                    new = sorted(set().union(*[fp1[k] - fp0.get(k, frozenset()) for k in fp1]))[:4]
+                    st.fail('global-state-changed', dict(sig, what='unit registry gained definitions'), case, {'filter': text, 'new_names': new})
+                if known is False:
+                    try:
+                        hs.ureg.parse_units(hs.pintutil.to_pint(unit))
+                        st.fail('global-state-changed', dict(sig, what='unknown unit became known to the shared registry'), case, {'filter': text})
+                    except pint.errors.UndefinedUnitError:
+                        pass
+                    except Exception:  # noqa
+                        pass
+                if d:
+                    st.fail('global-state-changed', dict(sig, what=d[0][:60]), case, {'filter': text, 'diff': d[:4]})
+                if flag:
+                    st.fail('payload-executed-canary-called', sig, case, {'filter': text})
+                if w:
+                    st.fail('payload-wrote-to-stdout', sig, case, {'filter': text})
+                bad = [e for e in ev if not (e[0] in ('compile', 'exec') and e[1] == 'generated-filter')]
+                if bad:
+                    st.fail('payload-caused-audited-effect', dict(sig, event=bad[0][0]), case, {'events': [list(e) for e in ev][:6]})
+                if out[0] == 'raise' and out[1] in ('SyntaxError', 'NameError', 'IndentationError'):
+                    st.fail('filter-failed-with-non-parse-error', dict(sig, exc=out[1]), case, {'filter': text})
+    finally:
+        hs.use_pint(False)
+    if type(hs.Quantity(1, 'kg')).__name__ != 'BasicQuantity':
+        raise HarnessError('the Quantity mode was not put back after the Pint sub-space')
+    return st
+
+
 def run(ctx):
     items = [(pos, atom, twin, spec, sh) for pos, atom, twin, spec in cases() for sh in SHAPES]
     seeded_rng(ctx.seed, 'c12').shuffle(items)
@@ -489,15 +578,21 @@ def run(ctx):
         st.merge(part)
     for part in pmap(incomparable_task, [(0,), (1,)], ctx.jobs):
         st.merge(part)
+    before_pint = st.c.get('executions', 0)
+    for part in pmap(pint_task, [(c,) for c in chunks(PINT_UNIT_PAYLOADS, ctx.jobs)], ctx.jobs):
+        st.merge(part)
+    pint_exec = st.c.get('executions', 0) - before_pint
     ex = st.c.get('executions', 0)
     st.c['states'], st.c['transitions'] = ex + 1, ex
     return {
         'stats': st, 'exhaustive': True,
         'rule': 'complete product of %d (position, payload) cases x %d enclosing shapes, each run after its benign twin, plus %d texts that are not '
-                'filters (each at 7 entry points incl. grids without rows), plus 15 incomparable comparisons under the global-state diff; setters of '
-                'interpreter-wide state are wrapped during every evaluation; distinct = distinct filter text; every case is non-trivial (it carries a canary payload)' % (len(cases()), len(SHAPES), len(INVALID)),
+                'filters (each at 7 entry points incl. grids without rows), plus 15 incomparable comparisons under the global-state diff, plus %d unit payloads x %d '
+                'filter forms in Pint mode (hszinc.use_pint) under a fingerprint of the shared unit registry; setters of '
+                'interpreter-wide state are wrapped during every evaluation; distinct = distinct filter text; every case is non-trivial (it carries a canary payload)' % (len(cases()), len(SHAPES), len(INVALID), len(PINT_UNIT_PAYLOADS), len(PINT_FORMS)),
         'coverage': {'bounds': {'callables': [c[0] for c in CALLS], 'breakouts': len(BREAKOUTS), 'names': NAMES, 'shapes': [s[0] for s in SHAPES],
-                                'positions': sorted(set(c[0] for c in cases())), 'invalid_texts': len(INVALID)}},
+                                'positions': sorted(set(c[0] for c in cases())), 'invalid_texts': len(INVALID),
+                                'pint_mode_unit_payloads': PINT_UNIT_PAYLOADS, 'pint_mode_forms': PINT_FORMS, 'executions_pint_mode': pint_exec}},
         'assumptions': ['monitors: sys.addaudithook (compile/exec of anything but the generated def, open, import, os.*, subprocess, socket, ...), a canary '
                         'builtin, a stdout recorder, a semantic probe row only selected if the payload was evaluated, and a diff of builtins / sys.modules / '
                         'os.environ / cwd / hszinc module globals (the generated functions, counter and cache of grid_filter excepted)',
@@ -514,6 +609,12 @@ def replay(case, st):
         return
     if case['kind'] == 'invalid':
         st.merge(invalid_task([case['filter']]))
+        return
+    if case['kind'] == 'pint':
+        sub = pint_task([case['unit']])
+        for f in sub.failures:
+            if f['case']['filter'] == case['filter']:
+                st.fail(f['symptom'], f['sig'], f['case'], f['detail'])
         return
     fmt = dict(SHAPES)[case['shape']]
     for pos, atom, twin, spec in cases():
